@@ -50,8 +50,7 @@ def install(I):
                 raise Unsupported("quantifier: %d names for %d components" % (len(names), len(items)))
             for nm, it in zip(names, items):
                 s2 = I.bind(s2, nm, it)
-            body, _ = I.eval1(node.body, s2)
-            b = I.truthy(body)
+            b, = I.under_binder([x], lambda: [I.truthy(I.eval1(node.body, s2)[0])])
             g = z3.Select(spec.mem, x)
             return z3.ForAll([x], z3.Implies(g, b)) if is_all else z3.Exists([x], z3.And(g, b))
         doms = dom if isinstance(dom, tuple) and len(names) > 1 else (dom,) * len(names) if len(names) > 1 and not isinstance(dom, tuple) else (dom,)
@@ -110,8 +109,7 @@ def install(I):
                     raise Unsupported("quantifier domain %r" % (d,))
             vars_.append(x)
             s2 = I.bind(s2, name, val)
-        body, _ = I.eval1(node.body, s2)
-        b = I.truthy(body)
+        b, = I.under_binder(vars_, lambda: [I.truthy(I.eval1(node.body, s2)[0])])
         g = z3.And(*guards) if guards else TRUE
         if is_all:
             return z3.ForAll(vars_, z3.Implies(g, b))
@@ -554,6 +552,12 @@ def install(I):
             return []
         if isinstance(v, CompVal):
             return I.comp_list(ast.ListComp(elt=v.node.elt, generators=v.node.generators), v.st)
+        if isinstance(v, IterSpec) and v.mode == "seq" and v.ekind is not None and getattr(v, "materialize", True):
+            k = LIST(v.ekind)
+            res = tfresh(k, "listed")
+            i = z3.Int(core.fresh_name("i"))
+            I.define([res[0] == v.length, z3.ForAll([i], z3.Implies(z3.And(0 <= i, i < v.length), teq(tselect(res[1], i), v.elt(i).tree)))])
+            return SV(k, res)
         if isinstance(v, IterSpec):
             return v
         if isinstance(v, ViewVal) or (isinstance(v, SV) and v.kind.tag in ("set", "dict")):
@@ -1031,6 +1035,24 @@ def install(I):
             return True
         return any(contains_obj(a) for a in k.args)
     I.contains_obj = contains_obj
+
+    @reg("itertools.islice")
+    def _islice(I, st, args, kw):
+        """islice(xs, n): the first n items (A-itertools)"""
+        src, n = args[0], args[1]
+        if len(args) > 2:
+            raise Unsupported("islice with start/step")
+        if isinstance(src, CompVal):
+            src = I.comp_list(ast.ListComp(elt=src.node.elt, generators=src.node.generators), src.st)
+        spec = I.to_iterspec(st, src)
+        if spec.mode == "concrete":
+            spec = I.concrete_to_seq(spec)
+        if spec.mode != "seq":
+            raise Unsupported("islice over an unordered collection")
+        nt = I.coerce(n, INT).tree
+        ln = z3.If(nt < spec.length, z3.If(nt > 0, nt, 0), spec.length)
+        yield IterSpec("seq", length=ln, ekind=spec.ekind, elt=spec.elt), st
+    I.lib["islice"] = I.lib["itertools.islice"]
 
     @reg("hash")
     def _hash(I, st, args, kw):
